@@ -8,7 +8,7 @@
    the guard [in_isize] and the harness observes the out-of-guard behaviour. *)
 From Coq Require Import List ZArith Bool Lia.
 Import ListNotations.
-Open Scope Z_scope.
+Local Open Scope Z_scope.
 
 Definition isize_min : Z := - 2 ^ 63.
 Definition isize_max : Z := 2 ^ 63 - 1.
